@@ -30,6 +30,9 @@ static reproc_t *P;
 static struct vk_child *CH;
 static int life, status_val;
 static int endst[3];
+static int endcause[3], excause; /* which operation brought a stream end / the handle into its state: different code paths of the library, kept apart in the
+                                    * state digest although the reference model treats them alike (merged states must have the same futures) */
+static int cur_op;
 static int pfd[3];
 static uint64_t pino[3];
 static int pid_seen;
@@ -72,6 +75,7 @@ static void note_reaped(int r)
 {
   life = L_EX;
   status_val = r;
+  excause = cur_op + 1;
 }
 
 static void do_start(int op)
@@ -113,7 +117,7 @@ static void do_op(int op)
     case OP_WRITE:
       r = hx_write(P, (const uint8_t *) "ab", 2);
       if (life == L_NS || endst[0] != E_OPEN) expect(op, r, r == REPROC_EPIPE, "stdin end is not open");
-      else if (child_exited() || CH->closed_fd[0]) { expect(op, r, r == REPROC_EPIPE, "the reader is gone"); if (r == REPROC_EPIPE) endst[0] = E_CLOSED; }
+      else if (child_exited() || CH->closed_fd[0]) { expect(op, r, r == REPROC_EPIPE, "the reader is gone"); if (r == REPROC_EPIPE) { endst[0] = E_CLOSED; endcause[0] = op + 1; } }
       else expect(op, r, r == 2 || r == REPROC_EWOULDBLOCK, "room in the pipe");
       break;
     case OP_WRITE_NULL0:
@@ -129,9 +133,9 @@ static void do_op(int op)
       if (life == L_NS || endst[s] != E_OPEN) expect(op, r, r == REPROC_EPIPE, "the stream's parent end is not open");
       else if (size == 0) expect(op, r, r == 0 || (r < 0 && end_held(s)), "a zero-size read returns 0 or an error that changes nothing");
       else if (avail > 0) expect(op, r, r == (avail < 4 ? avail : 4), "data is pending");
-      else if (writer_gone) { expect(op, r, r == REPROC_EPIPE, "no data and the writer is gone"); if (r == REPROC_EPIPE) endst[s] = E_CLOSED; }
+      else if (writer_gone) { expect(op, r, r == REPROC_EPIPE, "no data and the writer is gone"); if (r == REPROC_EPIPE) { endst[s] = E_CLOSED; endcause[s] = op + 1; } }
       else expect(op, r, r == REPROC_EWOULDBLOCK, "no data, writer alive, nonblocking");
-      if (size == 0 && r == REPROC_EPIPE && !writer_gone) endst[s] = E_CLOSED;
+      if (size == 0 && r == REPROC_EPIPE && !writer_gone) { endst[s] = E_CLOSED; endcause[s] = op + 1; }
       break;
     }
     case OP_READ_IN:
@@ -149,7 +153,7 @@ static void do_op(int op)
       int s = op - OP_CLOSE_IN;
       r = hx_close(P, (REPROC_STREAM) s);
       expect(op, r, r == 0, "close is idempotent and always succeeds on a valid stream");
-      if (life != L_NS && endst[s] == E_OPEN) endst[s] = E_CLOSED;
+      if (life != L_NS && endst[s] == E_OPEN) { endst[s] = E_CLOSED; endcause[s] = op + 1; }
       break;
     }
     case OP_CLOSE_BAD:
@@ -236,7 +240,8 @@ static void do_op(int op)
       P = hx_new();
       life = L_NS;
       CH = NULL;
-      for (int i = 0; i < 3; i++) { endst[i] = E_NOPIPE; pfd[i] = -1; }
+      for (int i = 0; i < 3; i++) { endst[i] = E_NOPIPE; pfd[i] = -1; endcause[i] = 0; }
+      excause = 0;
       break;
     }
     case OP_CHILD_STEP:
@@ -299,11 +304,13 @@ static void c14_run(int tier, long cfg)
   P = hx_new();
   life = L_NS;
   CH = NULL;
-  for (int i = 0; i < 3; i++) { endst[i] = E_NOPIPE; pfd[i] = -1; }
+  for (int i = 0; i < 3; i++) { endst[i] = E_NOPIPE; pfd[i] = -1; endcause[i] = 0; }
+  excause = 0;
   int op = (int) cfg;
   for (;;) {
     snprintf(hist + strlen(hist), sizeof hist - strlen(hist), "%s%s", hist[0] ? "," : "", op_names[op]);
     hx_desc("h_c14|%s", hist);
+    cur_op = op;
     do_op(op);
     if (S->ntrace >= S->prefix_len) break;
     op = vk_choose(K_OP, NOPS, 0, "op");
@@ -313,6 +320,8 @@ static void c14_run(int tier, long cfg)
   h = mix(h, (uint64_t) life);
   h = mix(h, life == L_EX ? (uint64_t) status_val : 0);
   for (int i = 0; i < 3; i++) h = mix(h, (uint64_t) endst[i]);
+  for (int i = 0; i < 3; i++) h = mix(h, (uint64_t) endcause[i]);
+  h = mix(h, (uint64_t) excause);
   h = mix(h, CH ? (uint64_t) CH->state : 99);
   h = mix(h, CH ? (uint64_t) CH->pos : 99);
   h = mix(h, CH ? (uint64_t) CH->nsteps : 99);
